@@ -134,6 +134,8 @@ def hole_parts(kind, k):
     if kind == 'comment': return [b'#'] + [('sym', 'g%d' % i, S.not_in([10])) for i in range(k)] + [b'\n'], False
     if kind == 'string': return [b'w := "'] + [('sym', 'g%d' % i, S.not_in(['"', '\\', '$'])) for i in range(k)] + [b'"\n'], False
     if kind == 'indent-comment': return [('sym', 'g0', S.in_set([0x20, 0x09]))] + [b'# '] + [('sym', 'g%d' % i, S.not_in([10])) for i in range(1, k)] + [b'\n'] + [('sym', 'g%d' % k, S.in_set(LAYOUT))], False
+    if kind == 'same-line-string': return [b'w := "'] + [('sym', 'g%d' % i, S.not_in(['"', '\\', '$', 10])) for i in range(k)] + [b'"; '], False
+    if kind == 'same-line-comment-then-code': return [b'u := 1 # '] + [('sym', 'g%d' % i, S.not_in([10])) for i in range(k)] + [b'\nv := "'] + [('sym', 'g%d' % (k + i), S.not_in(['"', '\\', '$', 10])) for i in range(1)] + [b'"; '], False
     if kind == 'continuation': return [b'v := [1,'] + [('sym', 'g%d' % i, S.in_set(LAYOUT)) for i in range(k)] + [b'2]\n'], False
     raise ValueError(kind)
 
@@ -215,6 +217,33 @@ def shift_job(tname, kind, k):
                 else: res['inconclusive'].append('shift-lemma violation not reproduced natively: %r' % (o['viol'],))
     return {'name': name, 'path_fn': path_fn, 'post': post, 'timeout': 900}
 
+CONTEXTS = [
+    'print(nope)', 'x := nope', 'x := 1 + nope', 'x := nope + 1', 'x := [1, nope]', 'x := {"k": nope}', 'x := {nope}', 'x := lst[nope]', 'x := nope[0]', 'x := lst[nope:]', 'x := lst[:nope]', 'x := 0 .. nope', 'x := nope .. 2',
+    'x := 0 ..   nope', 'x := two(1, nope)', 'x := nope(1)', 'x := nope.k', 'x := obj[nope]', 'if nope {\n    print(1)\n}', 'while nope {\n    print(1)\n}', 'for [i, v] in nope {\n    print(1)\n}', 'x := $"a${nope}"' if False else 'x := [lst.., nope..]',
+    'x := two(lst..,   nope)', 'nope = 1', 'nope += 1', 'lst[nope] = 1', 'obj.k = nope', '[a1, b1] := [1, nope]', 'x := (1 + 2) * nope', 'x := 1 - 2 - nope', 'x := fn () {\n    return nope\n}()', 'x := -1 + nope',
+    'x := true && nope', 'x := {"a": 1, "b": [2, {"c": nope}]}', 'x := two(two(1, 2), two(3, nope))', 'x := lst[0:1][nope]', 'x := obj.f(nope)', 'return nope',
+    # operator errors: the position of the operator
+    'x := 1 + ""', 'x := 1 +   ""', 'x := (1 + 2) *  ""', 'x := lst[0] - "s"', 'x := 1 == ""', 'x := 1 < null', 'x := [] === 1', 'y := 1\ny += ""', 'y := 1\ny   -= ""', 'x := 1 + 2 * "" - 3', 'x := two(1, 2 / "")',
+    'x := 9223372036854775807 + 1', 'x := 5 % 0', 'x := 0 .. 1 + ""',
+    # call errors: the position of the call expression's first token
+    'x := 5()', 'x := two(1)', 'x := 1 + two(1)', 'x := [two()]', 'x := obj.f()', 'x := obj["f"](1, 2)', 'x := lst[0]()', 'x := two(1, 2)(3)', 'x := 0 ..   two(1)', 'print(two(1, two()))',
+]
+def context_templates():
+    from mirsym import family as F2
+    def ladder(sel, options):
+        out = []
+        for i, code in enumerate(options):
+            out.append(('if' if i == 0 else '} else if') + ' %s == %d {' % (sel, i))
+            out += ['    ' + l for l in code.split('\n')]
+        out.append('}')
+        return out
+    head = ['s := @h0@', 'lst := [1, 2]', 'obj := {"k": 1, "f": fn (v) {', '    return v', '}}', 'fn two(a, b) {', '    return a', '}']
+    n = len(CONTEXTS)
+    top = {'name': 'contexts-top', 'src': '\n'.join(head + ladder('s', [c for c in CONTEXTS if not c.startswith('return')]) + ['print(9)']) + '\n', 'assume': lambda v: [v['h0'] >= 0, v['h0'] <= n]}
+    infn = {'name': 'contexts-in-fn', 'src': '\n'.join(head + ['fn g(s) {'] + ['    ' + l for l in ladder('s', CONTEXTS)] + ['    return 0', '}', '  print(g(@h1@))']) + '\n', 'assume': lambda v: [v['h1'] >= 0, v['h1'] <= n]}
+    infn['src'] = infn['src'].replace('s := @h0@\n', '')
+    return [top, infn]
+
 def run(tier, seed):
     c = common.Check('C18', tier, seed, 'symbolic execution of main (MIR) over symbolic source bytes: scanner-position invariant at every Scanner::loc() call and shift lemma for layout prefixes, both as z3 formulas over the input bytes decided per path; reference front end on path witnesses; native replay')
     c.functions |= {'Scanner::new', 'Scanner::next_char', 'Scanner::peek_char', 'Scanner::loc', 'Scanner::range', 'Lexer::next', 'Lexer::next_token', 'Lexer::skip_whitespace_and_comments', 'Lexer::next_str_literal', 'Lexer::next_int',
@@ -228,15 +257,17 @@ def run(tier, seed):
         sjobs = [scanner_job(1, False), scanner_job(2, False), scanner_job(3, False), scanner_job(4, True)]
         ks = [1, 2, 3]
     for tname in TAILS:
-        for kind in ('layout', 'comment', 'string', 'indent-comment', 'continuation'):
+        for kind in ('layout', 'comment', 'string', 'same-line-string', 'same-line-comment-then-code', 'indent-comment', 'continuation'):
             for k in ks:
                 if tier == 'quick' and kind in ('indent-comment', 'continuation') and (k != 2 or tname not in ('undefined', 'stack', 'lex-char', 'parse')): continue
-                if tier == 'quick' and k == 2 and kind in ('comment', 'string') and tname not in ('undefined', 'op-types', 'stack', 'parse'): continue
+                if tier == 'quick' and k == 2 and kind in ('comment', 'string', 'same-line-string') and tname not in ('undefined', 'op-types', 'stack', 'parse'): continue
+                if tier == 'quick' and kind == 'same-line-comment-then-code' and (k != 1 or tname not in ('undefined', 'stack', 'lex-char')): continue
                 jobs.append(shift_job(tname, kind, k))
     c.bounds = {'scanner_invariant': 'all valid-UTF-8 inputs of N <= 2 bytes and all ASCII inputs of 3 bytes (quick); N <= 3 UTF-8, 4 ASCII (thorough)',
                 'shift_lemma': '%d tails x layout prefixes of <= %d symbolic bytes: {space, tab, CR, LF}*, `#` comment with arbitrary UTF-8 text, multi-line string literal, indented comment, continuation line break' % (len(TAILS), max(ks))}
     c.outside = ['inputs longer than the stated byte counts', 'positions inside interpolation slots (relative to the slot, not stated)', 'column of an end-of-file parse error', 'position of an integer-overflow lexical error within the literal']
     c.assumptions.append('when the current character is a line feed both (line, len+1) and the implementation-chosen (line+1, 0) are accepted (DESIGN.md 3.2)')
+    c.run_family('position-contexts', context_templates(), ('position', 'stack', 'panic'), lambda v: 'position:%s:%s' % (v.get('template'), v.get('ref')), par_templates=2, par_paths=8)
     c.run_jobs('scanner-invariant', sjobs, par_jobs=len(sjobs), par_paths=max(2, 16 // len(sjobs)), timeout=3000)
     c.run_jobs('shift-lemma', jobs, par_jobs=8, par_paths=2)
     return c.finish()
